@@ -30,26 +30,54 @@ Definition masked_word_reqs (cfg : string) : list ct_req :=
 
 Definition rounds13 : list (list N) := singles (nrange 0 13).
 
+(* --- key life cycles (audit 2, gap 6): functions that take a key, a saved key image or a session nonce and were in no
+   layer.  Exact control tuples, so that dropping a shape (e.g. the NULL-key form of *_aead_reinit) breaks the theorem.
+     <alg>_isap_aead_init / _load_key / _save_key / _free      no control argument; key, 80-byte image, key object secret
+     <alg>_aead_init   [npub_given; k_given]                   0 = NULL, 1 = a buffer; contents of both secret
+     <alg>_aead_reinit [npub_given; k_given]                   npub_given = 2: the object's own nonce field
+     ascon_prf_reinit, ascon_prf_fixed_reinit [outlen]         2^29 = the "too large, arbitrary length" branch
+     ascon_hmac(a)_reinit [keylen]                             64/65 = the block-size boundary (long keys are hashed first)
+     ascon_kmac(a)_reinit, ascon_kdf(a)_reinit [keylen; customlen; outlen]   outlen 32 = KMAC's precomputed-IV path *)
+Definition algs : list string := ["ascon128"; "ascon128a"; "ascon80pq"].
+Definition pairs_of (a b : list N) : list (list N) := flat_map (fun x => map (fun y => [x; y]) b) a.
+Definition triples_of (a b c : list N) : list (list N) := flat_map (fun x => flat_map (fun y => map (fun z => [x; y; z]) c) b) a.
+Definition lifecycle_per_alg : list (string * list (list N)) :=
+  [("_isap_aead_init", [[]]); ("_isap_aead_load_key", [[]]); ("_isap_aead_save_key", [[]]); ("_isap_aead_free", [[]]);
+   ("_aead_init", pairs_of [1; 0]%N [1; 0]%N); ("_aead_reinit", pairs_of [1; 0; 2]%N [1; 0]%N)].
+Definition kco : list (list N) := triples_of [0; 16; 33]%N [0; 5]%N [0; 32; 41]%N.
+Definition lifecycle_fns3 : list (string * list (list N)) :=
+  [("ascon_prf_reinit", [[]]); ("ascon_prf_fixed_reinit", singles [0; 1; 16; 536870912]%N);
+   ("ascon_kmac_reinit", kco); ("ascon_kmaca_reinit", kco); ("ascon_kdf_reinit", kco); ("ascon_kdfa_reinit", kco)].
+Definition lifecycle_fns2 : list (string * list (list N)) :=
+  [("ascon_hmac_reinit", singles [0; 16; 32; 33; 64; 65; 100]%N); ("ascon_hmaca_reinit", singles [0; 16; 32; 33; 64; 65; 100]%N)].
+Definition ct_required_lifecycle : list ct_req :=
+  flat_map (fun cfg => flat_map (fun a => map (fun q => (a +s+ fst q, cfg, snd q)) lifecycle_per_alg) algs ++
+                       map (fun q => (fst q, cfg, snd q)) lifecycle_fns3) ["default"; "c32"; "directxor"]
+  ++ flat_map (fun cfg => map (fun q => (fst q, cfg, snd q)) lifecycle_fns2) ["default"; "c32"].
+
 Definition ct_required : list ct_req :=
   [("ascon_aead_check_tag", "default", check_tag_ctls); ("ascon_aead_increment_nonce", "default", [[]])]
+  ++ ct_required_lifecycle
   ++ on_cfgs ["default"; "c32"; "directxor"] byterange_fns off_size_pairs
   ++ masked_word_reqs "x86_64_asm" ++ masked_word_reqs "c64" ++ masked_word_reqs "c32"
   ++ on_cfgs ["x86_64_asm"; "c64"; "c32"; "directxor"] ["ascon_permute"] rounds13
   ++ on_cfgs ["x86_64_asm"; "c64"; "c32"] ["ascon_x2_permute"; "ascon_x3_permute"; "ascon_x4_permute"] rounds13.
 
 (* --- keyed mode-level functions: must be present (with all their shapes ok) in these configurations --- *)
-Definition algs : list string := ["ascon128"; "ascon128a"; "ascon80pq"].
 Definition per_alg : list string :=
   ["_aead_encrypt"; "_aead_decrypt"; "_siv_encrypt"; "_siv_decrypt"; "_isap_aead_encrypt"; "_isap_aead_decrypt"; "_isap_aead_init";
+   "_isap_aead_load_key"; "_isap_aead_save_key"; "_isap_aead_free"; "_aead_init"; "_aead_reinit";
    "_aead_start"; "_aead_encrypt_block"; "_aead_decrypt_block"; "_aead_encrypt_finalize"; "_aead_decrypt_finalize"].
 Definition mode_fns3 : list string :=
   flat_map (fun a => map (fun s => a +s+ s) per_alg) algs ++
   ["ascon_prf"; "ascon_prf_fixed"; "ascon_prf_short"; "ascon_mac"; "ascon_mac_verify"; "ascon_prf_absorb"; "ascon_prf_squeeze";
+   "ascon_prf_reinit"; "ascon_prf_fixed_reinit"; "ascon_kmac_reinit"; "ascon_kmaca_reinit"; "ascon_kdf_reinit"; "ascon_kdfa_reinit";
    "ascon_pbkdf2"; "ascon_kmac"; "ascon_kdf"; "ascon_kmaca"; "ascon_kdfa";
    "ascon_random_init"; "ascon_random_reseed"; "ascon_random_fetch"; "ascon_random_feed";
    "ascon_trng_init"; "ascon_trng_generate_32"; "ascon_trng_generate_64"; "ascon_trng_reseed"].
 Definition mode_fns2 : list string :=
-  ["ascon_hmac"; "ascon_hkdf"; "ascon_hkdf_expand"; "ascon_hmaca"; "ascon_hkdfa"; "ascon_hkdfa_expand"; "ascon_pbkdf2_hmac"].
+  ["ascon_hmac"; "ascon_hkdf"; "ascon_hkdf_expand"; "ascon_hmaca"; "ascon_hkdfa"; "ascon_hkdfa_expand"; "ascon_pbkdf2_hmac";
+   "ascon_hmac_reinit"; "ascon_hmaca_reinit"].
 Definition ct_required_modes : list (string * string) :=
   flat_map (fun cfg => map (fun fn => (fn, cfg)) mode_fns3) ["default"; "c32"; "directxor"] ++
   flat_map (fun cfg => map (fun fn => (fn, cfg)) mode_fns2) ["default"; "c32"].
@@ -70,3 +98,25 @@ Proof. vm_compute. reflexivity. Qed.
 
 (* numbers for the evidence *)
 Definition ct_count_runs : nat := fold_right (fun e n => (List.length (ce_runs e) + n)%nat) 0%nat ct_entries.
+
+(* the key-life-cycle part on its own: 76 (function, configuration) requirements with 385 control tuples, every one met by the
+   regenerated table with exactly the listed tuples; a sample of what the list holds *)
+Definition ct_lifecycle_tuples : nat := fold_right (fun q n => (List.length (snd q) + n)%nat) 0%nat ct_required_lifecycle.
+Definition req_has (fn cfg : string) (ctl : list N) (l : list ct_req) : bool :=
+  existsb (fun q => String.eqb (fst (fst q)) fn && String.eqb (snd (fst q)) cfg && existsb (nlist_eqb ctl) (snd q)) l.
+Lemma ct_lifecycle_checked :
+  forallb (req_met ct_entries) ct_required_lifecycle = true /\
+  List.length ct_required_lifecycle = 76%nat /\ ct_lifecycle_tuples = 385%nat /\
+  incl ct_required_lifecycle ct_required /\
+  req_has "ascon80pq_isap_aead_load_key" "c32" [] ct_required_lifecycle = true /\
+  req_has "ascon128a_isap_aead_save_key" "directxor" [] ct_required_lifecycle = true /\
+  req_has "ascon80pq_aead_reinit" "default" [2; 0]%N ct_required_lifecycle = true /\
+  req_has "ascon_prf_fixed_reinit" "c32" [536870912]%N ct_required_lifecycle = true /\
+  req_has "ascon_hmaca_reinit" "default" [65]%N ct_required_lifecycle = true /\
+  req_has "ascon_kmac_reinit" "directxor" [33; 5; 32]%N ct_required_lifecycle = true /\
+  req_has "ascon_kdfa_reinit" "default" [0; 0; 41]%N ct_required_lifecycle = true.
+Proof.
+  split; [vm_compute; reflexivity|]. split; [vm_compute; reflexivity|]. split; [vm_compute; reflexivity|].
+  split; [unfold ct_required; intros q Hq; apply in_or_app; right; apply in_or_app; left; exact Hq|].
+  repeat split; vm_compute; reflexivity.
+Qed.
